@@ -475,7 +475,7 @@ def generate():
         except OSError:
             pass
     info["custom_key"] = table("tag", "custom_key_of_string", string_to_tag, "parser/attributes/custom.rs::<CustomasParse>::parse#m0",
-                               "custom_key_of_string", r"custom\s*\.\s*(\w+)\s*=")
+                               "custom_key_of_string", r"custom\s*\.\s*(\w+)\b")
     info["msg_arg"] = table("tag", "msg_arg_of_string", string_to_tag, "parser/attributes/msg.rs::<ArgumentParserasParse>::parse#m0",
                             "msg_arg_of_string", r"result\s*\.\s*(\w+)")
 
